@@ -20,6 +20,8 @@ func init() {
 	register(&Workload{Prop: "C05", Variant: "spawn-race", Horizon: 10 * time.Minute, MaxSteps: 150000, MaxG: 4096, Spin: 5000, PCTLen: 1200, Body: c05SpawnRace})
 	// the same runs judged for C09: mail that reached a child before its (failing) OnLaunch waits for the supervisor
 	register(&Workload{Prop: "C09", Variant: "spawn-race", Horizon: 10 * time.Minute, MaxSteps: 150000, MaxG: 4096, Spin: 5000, PCTLen: 1200, Body: c05SpawnRace})
+	// ... and by C02: what reached a child before its OnLaunch is older than everything still queued and keeps its place
+	register(&Workload{Prop: "C02", Variant: "spawn-race", Horizon: 10 * time.Minute, MaxSteps: 150000, MaxG: 4096, Spin: 5000, PCTLen: 1200, Body: c05SpawnRace})
 }
 
 var restartish = []vivid.SupervisionDecision{vivid.SupervisionDecisionRestart, vivid.SupervisionDecisionRestart, vivid.SupervisionDecisionGracefulRestart,
@@ -69,13 +71,44 @@ func c05Lifecycle(r *R) {
 			panic("failure while handling a child's OnKilled")
 		}
 	}
-	top := &Spec{Name: "a", Strategy: strat, Provider: r.Chance(50), OnLaunch: launchHook, OnKilled: childKilledHook}
+	// a failing OnRestarted hook turns the restarted actor into a zombie: its behaviour sees nothing at all any more - not
+	// while it is a zombie and not after a kill released it, whatever reference the later mail comes through
+	failRestart := map[string]bool{}
+	zombies := map[string]bool{}
+	restartedHook := func(p *Probe) error {
+		cfgMu.Lock()
+		f := failRestart[p.Path]
+		if f {
+			failRestart[p.Path] = false
+			zombies[p.Path] = true
+		}
+		cfgMu.Unlock()
+		if f {
+			r.Count("zombie-created")
+			return errors.New("restarted hook refuses")
+		}
+		return nil
+	}
+	var refMu sync.Mutex
+	origRefs := map[string]vivid.ActorRef{}
+	topLaunch := func(ctx vivid.ActorContext, p *Probe) {
+		launchHook(ctx, p)
+		kids := ctx.Children() // references as ActorOf returned them: they cache the mailbox
+		refMu.Lock()
+		for _, k := range kids {
+			if origRefs[k.GetPath()] == nil {
+				origRefs[k.GetPath()] = k
+			}
+		}
+		refMu.Unlock()
+	}
+	top := &Spec{Name: "a", Strategy: strat, Provider: r.Chance(50), OnLaunch: topLaunch, OnKilled: childKilledHook}
 	var paths []string
 	paths = append(paths, "/a")
 	desc := map[string]any{"one_for_all": oneForAll}
 	var cdesc []string
 	for i := 0; i < nChildren; i++ {
-		c := &Spec{Name: fmt.Sprintf("b%d", i), Provider: r.Chance(50), OnLaunch: launchHook, OnKilled: childKilledHook}
+		c := &Spec{Name: fmt.Sprintf("b%d", i), Provider: r.Chance(50), OnLaunch: launchHook, OnKilled: childKilledHook, Restarted: restartedHook}
 		d := c.Name
 		if c.Provider {
 			d += "(provider)"
@@ -127,9 +160,12 @@ func c05Lifecycle(r *R) {
 	ops := make([][]op, nSenders)
 	var odesc []string
 	for i := 0; i < nOps; i++ {
-		o := op{kind: r.Choose(10), target: paths[r.Choose(len(paths))]}
+		o := op{kind: r.Choose(11), target: paths[r.Choose(len(paths))]}
+		if o.kind == 10 && strings.Count(o.target, "/") != 2 {
+			o.kind = 0 // only the children of /a have the failing hook
+		}
 		ops[i%nSenders] = append(ops[i%nSenders], o)
-		odesc = append(odesc, fmt.Sprintf("%s->%s", []string{"tell", "tell", "panic", "Failed", "become", "bad-prelaunch-spawn", "sched-fail", "kill-child-then-fail", "kill", "watch-another-actor"}[o.kind], o.target))
+		odesc = append(odesc, fmt.Sprintf("%s->%s", []string{"tell", "tell", "panic", "Failed", "become", "bad-prelaunch-spawn", "sched-fail", "kill-child-then-fail", "kill", "watch-another-actor", "zombie-kill-tell"}[o.kind], o.target))
 	}
 	desc["ops"] = odesc
 	r.Sample(desc)
@@ -144,7 +180,34 @@ func c05Lifecycle(r *R) {
 			name := fmt.Sprintf("s%d", si)
 			for k, o := range ops[si] {
 				ref := w.RefBy("create", nil, o.target)
+				refMu.Lock()
+				orig := origRefs[o.target]
+				refMu.Unlock()
+				if orig != nil && r.Chance(40) {
+					ref = orig
+					r.Count("sent via the reference ActorOf returned")
+				}
 				switch o.kind {
+				case 10:
+					// the next restart of the target fails in its hook (zombie, if its supervisor decides to restart it); the
+					// zombie is then released by a kill and told one more message through the original reference
+					cfgMu.Lock()
+					failRestart[o.target] = true
+					cfgMu.Unlock()
+					w.Tell(ref, w.NewCmd(name, k, func(ctx vivid.ActorContext, p *Probe) { panic("failure before the failing restart hook") }))
+					vsimrt.Sleep(20 * time.Millisecond)
+					w.Sys.Kill(ref, r.Chance(50), "release")
+					vsimrt.Sleep(10 * time.Millisecond)
+					if orig != nil {
+						w.Tell(orig, w.NewCmd(name+"/late", k, nil))
+						if r.Chance(30) {
+							w.Sys.Kill(orig, false, "second kill")
+						}
+					}
+					cfgMu.Lock()
+					failRestart[o.target] = false
+					cfgMu.Unlock()
+					r.Count("zombie-kill-tell")
 				case 0, 1:
 					w.Tell(ref, w.NewCmd(name, k, nil))
 				case 2:
@@ -224,6 +287,12 @@ func c05Lifecycle(r *R) {
 	// probes after the dust settled: every path gets one more message (exercises "nothing after OnKilled")
 	for _, p := range paths {
 		w.Tell(w.RefBy("create", nil, p), w.NewCmd("final", 0, nil))
+		refMu.Lock()
+		orig := origRefs[p]
+		refMu.Unlock()
+		if orig != nil {
+			w.Tell(orig, w.NewCmd("final-orig", 0, nil))
+		}
 	}
 	vsimrt.SettleFor(time.Second)
 	if err := w.Stop(30 * time.Second); err != nil {
@@ -233,11 +302,21 @@ func c05Lifecycle(r *R) {
 	if r.Failed() {
 		return
 	}
+	cfgMu.Lock()
+	c05Zombies = map[string]bool{}
+	for k, v := range zombies {
+		c05Zombies[k] = v
+	}
+	cfgMu.Unlock()
 	c05Oracle(r, w, spawnErrs)
+	c05Zombies = nil
 	if r.Failed() {
 		w.DumpNotes(400)
 	}
 }
+
+// c05Zombies: paths whose OnRestarted hook failed in the run being judged (one run at a time per process)
+var c05Zombies map[string]bool
 
 // c05Oracle checks every actor's behaviour-visible trace against
 // ( OnLaunch any* [OnKill] OnKilled(self) )  per incarnation.
@@ -270,7 +349,7 @@ func c05Oracle(r *R, w *World, spawnErrs []string) {
 				prevInst = -1
 			}
 			if len(inc) == 0 {
-				if life.ByRestart && k == len(lives[path])-1 {
+				if life.ByRestart && k == len(lives[path])-1 && !c05Zombies[path] {
 					// restarted, and then nothing at all: the new incarnation never saw its OnLaunch
 					r.failPost("C05/restart-without-onlaunch", "%s: incarnation %d was started by a restart but its behaviour never received OnLaunch (nor anything else); whole trace: %s", path, k, fmtEvents(seq, 30))
 					return
@@ -435,6 +514,28 @@ func c05SpawnRace(r *R) {
 	}
 	vsimrt.SettleFor(time.Second)
 	if r.Failed() {
+		return
+	}
+	if r.Prop == "C02" {
+		// per-sender order at the behaviour, across the launch (and across a restart: queued mail keeps its order)
+		last := map[string]int{}
+		for _, e := range w.Events() {
+			if e.Kind != "Cmd" || !strings.HasPrefix(e.Path, "/p/c") || !strings.HasPrefix(e.Info, "from=s") {
+				continue
+			}
+			var si, seq int
+			if _, err := fmt.Sscanf(e.Info, "from=s%d seq=%d", &si, &seq); err != nil {
+				continue
+			}
+			key := fmt.Sprintf("%s<-s%d", e.Path, si)
+			if prev, ok := last[key]; ok && seq < prev {
+				r.Fail("C02/order-violated across-launch", "%s: message #%d of sender s%d was handled after its message #%d (the child was being spawned while the sender, holding a by-path reference, kept sending; OnLaunch failed: %v, decision %v)", e.Path, seq, si, prev, failLaunch, dec)
+				w.DumpNotes(300)
+				return
+			}
+			last[key] = seq
+			r.Count("across-launch-order-checked")
+		}
 		return
 	}
 	if r.Prop == "C05" {
